@@ -4,7 +4,7 @@ import vlib
 
 META = {
     "category": "proof",
-    "text": "Lean: a generic coder framework (Coder, runSliced, ByteMachine) with the theorem that every coder obtained from a byte machine gives the same concatenated output, final status and consumed count under any two fair slicings; chunk-faithful models of the small resumable coders of liblzma (lzma_vli_decode/encode with vli_pos, the lzma_bufcpy field reader, simple_code() buffering with an abstract BCJ filter, delta, the LZMA2 chunk-header machine) proved equal to their whole-buffer meaning for every split. Tie and direct oracle: every public coder of liblzma (all decoders incl. threaded, all encoders incl. threaded) is run in-process on the same input under whole-buffer, byte-at-a-time with empty calls, every two-piece input/output split and random slicings; output bytes, final lzma_ret, total_in/total_out and informational return codes must be identical; encoders additionally across thread counts, timeouts and struct vs string filter chains. The small-coder models are run against the real functions call by call.",
+    "text": "Lean: a generic coder framework (Coder, runSliced, ByteMachine) with the theorem that every coder obtained from a byte machine gives the same concatenated output, final status and consumed count under any two fair slicings; chunk-faithful models of the small resumable coders of liblzma (lzma_vli_decode/encode with vli_pos, the lzma_bufcpy field reader, simple_code() buffering with an abstract BCJ filter, delta, the LZMA2 chunk-header machine) proved equal to their whole-buffer meaning for every split. Tie and direct oracle: every public coder of liblzma (all decoders incl. threaded, all encoders incl. threaded) is run in-process on the same input under whole-buffer, byte-at-a-time with empty calls, every two-piece input/output split and random slicings; output bytes, final lzma_ret, total_in/total_out and informational return codes must be identical; encoders additionally across thread counts, timeouts and struct vs string filter chains; tiny output windows (1,2,3,5,7 bytes per call); a seeded half of the cases on a re-initialised handle (no lzma_end) last used by another coder, after runs that ended in success, error or were abandoned mid-stream. The small-coder models (VLI, field reader, simple_code with a test filter, delta, Index decoder machine, LZMA2 chunk-header machine) are run against the real functions call by call.",
     "note": "Trusted: Lean kernel + propext/Classical.choice/Quot.sound; harness/c06_*.c (generic run_sliced driver); the C compiler; ASan/UBSan observe memory errors at run time only. The LZMA symbol decoder's ~25 SEQ_* resume points and the encoders are NOT modelled: for them the property is checked by the C-vs-C slicing oracle only. MT-encoder determinism under all schedules is stated (mt_encoder_deterministic_statement) and deferred to C08; here it is exercised over thread counts/timeouts/OS schedules.",
     "technique": "Lean 4 proof over an executable model + differential slicing oracle on the implementation",
 }
@@ -1054,7 +1054,8 @@ def run(ctx):
     ctx.cov["rule"] = ("(coder, action, input) triples: every public liblzma coder x tests/files/* + files generated by the real encoders over "
                        "text/random/zero/run/code/wave plaintexts (0..4096 bytes exhaustively split; 20K-300K sampled) + mutants "
                        "(truncate/flip/insert/delete/append) + noise; per triple the whole-buffer run is compared with: every two-piece input split, "
-                       "every two-piece output split, 8 byte-at-a-time patterns with empty calls, random slicings, NULL-pointer empty windows; "
+                       "every two-piece output split, 13 byte-at-a-time / tiny-output patterns with empty calls, random slicings, NULL-pointer empty windows, "
+                       "handle reuse after success / error / mid-stream abandon (K items) and across coders (G), fresh-handle cross-check (FW); "
                        "evaluations = coder runs; distinct = distinct (coder, action, input)")
     ctx.assumptions += [
         "Lean 4 kernel; the generic theorem is about coders that are images of byte machines; that the C LZMA/LZMA2/container coders behave like one is checked by the slicing oracle only (not proved)",
